@@ -76,3 +76,12 @@ pub proof fn lemma_split_inside_separator(a: Seq<u8>, b: Seq<u8>)
       }
 //@ end
 
+
+//@ fn cln_plugin::codec::MultiLineCodec::encode
+//@ returns r
+//@ implicit [C06,C17]
+//@ ensures#appends_the_text_and_exactly_one_blank_line_separator [C17]
+//    the frame written for a message is its UTF-8 bytes followed by "\n\n"; what was already in
+//    the buffer stays in front of it
+      r is Ok && final(buf).data@ == old(buf).data@ + as_ref_view::<T, str>(&line).spec_bytes() + seq![10u8, 10u8]
+//@ end
